@@ -14,6 +14,7 @@ for p in mutants/*.patch; do
 done
 for d in seeded/*/; do
 	id=$(python3 -c "import json,sys; print(json.load(open('$d/meta.json'))['property'])")
+	if grep -q '"caught_by": "NOT CAUGHT' $d/meta.json; then echo "SKIPPED $id  $d (recorded as outside the property)"; continue; fi
 	run /verif/${d}patch.diff $id
 done
 # refactorings that keep the property: must stay quiet
